@@ -599,12 +599,31 @@ def _c20_smt(tier, seed):
             info["translator_validation_metadata_files"] = {"outcome": nv["outcome"], "message": nv["message"], "path": nv["path"]}
             if nv["outcome"] != "passed":
                 mob.update({"verdict": "inconclusive", "message": "the obligation is discharged but the real InstanceMetaRepository does not round-trip a sampled file: %s" % nv["message"]})
+    from rs2smt import c20transfer
+    tob = c20transfer.run(tier, seed)
+    if not os.environ.get("VERIF_NO_NATIVE"):
+        if tob.get("verdict") == "violation":
+            ls = (tob.get("counterexample") or {}).get("value_lengths") or [3, 200, 1100]
+            rr = native_scenarios("C20", "violation", ["transfer_file_" + "_".join(str(x) for x in ls)], tob["message"], {"obligation": tob["harness"], "model": tob.get("counterexample")})
+            tob["replay_path"] = rr["path"]
+            if rr["outcome"] == "reproduced":
+                tob["replay"] = {"path": rr["path"], "outcome": rr["outcome"], "message": rr["message"]}
+                tob["message"] = "%s [real TransferWriter / TransferReader / TransferFileReader: %s]" % (tob["message"], rr["message"][:300])
+            else:
+                tob["replay"] = {"path": rr["path"], "outcome": "model-only", "message": "the native scenario names odd records by table id; it does not show this counterexample: %s" % rr["message"][:200]}
+        elif tob.get("verdict") == "discharged":
+            nv = native_scenarios("C20", "validate", ["transfer_file_3_200_1100", "transfer_file_1100_3_3", "transfer_file_200_1100_1100"])
+            info["translator_validation_transfer_files"] = {"outcome": nv["outcome"], "message": nv["message"], "path": nv["path"]}
+            if nv["outcome"] != "passed":
+                tob.update({"verdict": "inconclusive", "message": "the obligation is discharged but the real transfer writer / readers do not round-trip a sampled file: %s" % nv["message"]})
     info["wall_s"] = round(__import__("time").time() - t0, 1)
-    return {"obligations": [ob, bob, mob], "info": info}
+    return {"obligations": [ob, bob, mob, tob], "info": info}
 
 
 PROPS["C20"]["smt"] = _c20_smt
 PROPS["C20"]["assumptions"] = PROPS["C20"]["assumptions"] + [
+    "s20_8: TransferWriter::{init, write_record}, TransferReader::{new, read_record}, TransferFileReader::{new, read_record_vec}, reader_transfer_record, the generated code of TransferHeader / TableNameMapEntity / TransferItem, "
+    "MessageBufReader::new_with_data and FileMessageReader from source over the file model; Cursor + binrw for the 8-byte prefix and serde_json of the empty extend map are models; 3 records, table by name or id, value lengths from {3, 200, 1100}",
     "s20_7: InstanceMetaRepository::{write_records_to_file, read_records_from_file, save_file_map, load_file_map}, the generated code of InstanceMetaDo / InstanceFileDo and MessageBufReader from source over "
     "the file model (File::create truncates, read returns at most the buffer's length, rename replaces); records files of 3 records with metadata value lengths from {3, 300, 700} (thorough: 4 records, also 1100 and 2100), "
     "file maps of 2..=4 services with file names of 32 / 500 / 700 bytes; a branch on a value byte counts as a decoding failure",
